@@ -1,6 +1,9 @@
 import DaskModel.Model.Rename
 import DaskModel.Lemmas.TaskTerm
 import DaskModel.Lemmas.RenameLayer
+import DaskModel.Lemmas.RenameBind
+import DaskModel.Lemmas.RenameBlockwise
+import DaskModel.Lemmas.RenameCheckpoint
 /-!
 # C16 — graph manipulation keeps values and changes only keys and ordering
 
@@ -223,6 +226,169 @@ example : (cloneSpecLayer exKeys exRho none exG).2 = false := by rfl
 example : legacyRefs [.str "a"] (.tuple [.fn 0, .int 1]) = [] := by decide
 end LayerExample
 
+/-! ### `_bind_one`: the bookkeeping over layer names (graph_manipulation.py 328-408)
+
+`bindOne` (Model/Rename.lean) is the function the driver runs against the real `bind`/`clone`: the two worklists
+(`layers_to_clone`, `layers_to_copy_verbatim`, Python sets popped in an order chosen by the parameters `sel1`/`sel2` — all
+theorems hold for every choice), `new_layers` (here: where each layer comes from) and `new_deps`. A layer of the child's
+graph is abstracted to its dependency names and the `is_bound` flag its `Layer.clone` returns. -/
+
+/-- the assumptions, in decidable form: the child's graph is a valid HighLevelGraph containing the child's layers,
+    `clone_key` is injective on its layer names and fresh (w.r.t. the child's and the blocker's names), the blocker's
+    graph `B` is a valid HighLevelGraph that contains the blocker's key as a layer -/
+structure BindInput (G : LayerMap) (child : List Obj) (ρ : Obj → Obj) (blk : Option Obj) (B : List (Obj × List Obj)) : Prop where
+  depsIn : ∀ e ∈ G, ∀ d ∈ e.2.1, d ∈ G.map Prod.fst
+  childIn : ∀ l ∈ child, l ∈ G.map Prod.fst
+  inj : ∀ a ∈ G.map Prod.fst, ∀ b ∈ G.map Prod.fst, ρ a = ρ b → a = b
+  freshG : ∀ a ∈ G.map Prod.fst, ρ a ∉ G.map Prod.fst
+  freshB : ∀ a ∈ G.map Prod.fst, ρ a ∉ B.map Prod.fst
+  closedB : ∀ e ∈ B, ∀ d ∈ e.2, d ∈ B.map Prod.fst
+  blkIn : ∀ b, blk = some b → b ∈ B.map Prod.fst
+
+theorem BindInput.hyp {G : LayerMap} {child : List Obj} {ρ : Obj → Obj} {blk : Option Obj} {B : List (Obj × List Obj)}
+    (h : BindInput G child ρ blk B) : BindHyp G child ρ blk (bindInit blk B) :=
+  bindHyp_of
+    ⟨fun l _ _ hl d hd => (isSome_lookup_iff G d).mpr (h.depsIn _ (mem_of_lookup G l _ hl) d hd),
+     fun l hl => (isSome_lookup_iff G l).mpr (h.childIn l hl)⟩
+    (fun a b ha hb => h.inj a ((isSome_lookup_iff G a).mp ha) b ((isSome_lookup_iff G b).mp hb))
+    (fun a ha => lookup_none_of_not_mem G _ (h.freshG a ((isSome_lookup_iff G a).mp ha)))
+    (fun a ha => lookup_none_of_not_mem B _ (h.freshB a ((isSome_lookup_iff G a).mp ha)))
+    (fun n _ hn d hd => (isSome_lookup_iff B d).mpr (h.closedB _ (mem_of_lookup B n _ hn) d hd))
+    (fun b hb => (isSome_lookup_iff B b).mpr (h.blkIn b hb))
+
+section BindOne
+variable {G : LayerMap} {om child : List Obj} {ρ : Obj → Obj} {blk : Option Obj} {B : List (Obj × List Obj)}
+  {sel1 sel2 : List Obj → Nat} {fuel : Nat} {acc : BindAcc}
+
+/-- **the loops terminate and raise no KeyError**: with fuel `bindFuel` (number of child layers + twice the number of
+    dependency edges) `bindOne` returns a graph, for every pop order -/
+theorem bind_one_total (h : BindInput G child ρ blk B) (om : List Obj) (sel1 sel2 : List Obj → Nat)
+    (hf : bindFuel G child ≤ fuel) : ∃ acc, bindOne G child om ρ blk B sel1 sel2 fuel = .ok acc :=
+  bindOne_ok om h.hyp sel1 sel2 hf
+
+/-- **(a) the result is a well-formed HighLevelGraph**: `new_layers` and `new_deps` have the same (duplicate-free) keys
+    and every name in any dependency set is a layer of the result -/
+theorem bind_one_wellformed (h : BindInput G child ρ blk B) (hB : (B.map Prod.fst).Nodup)
+    (hr : bindOne G child om ρ blk B sel1 sel2 fuel = .ok acc) :
+    acc.layers.map Prod.fst = acc.deps.map Prod.fst ∧ (acc.layers.map Prod.fst).Nodup ∧
+    ∀ e ∈ acc.deps, ∀ x ∈ e.2, x ∈ acc.layers.map Prod.fst := by
+  obtain ⟨verb, acc1, I1, I2⟩ := bindOne_invs h.hyp hr
+  obtain ⟨hk, hc⟩ := res_wf h.hyp I1 I2
+  have hn := bindOne_nodup hB hr
+  refine ⟨hk, hn, ?_⟩
+  intro e he x hx
+  have hl : acc.deps.lookup e.1 = some e.2 := lookup_eq_of_mem_nodup (by rw [← hk]; exact hn) he
+  exact (isSome_lookup_iff _ x).mp (hc e.1 e.2 hl x hx)
+
+/-- **(b) a layer is regenerated iff it is reachable** from the child's layers along dependencies without entering an
+    omitted layer (`Regen`; the child's own layers are regenerated even when they are listed in `omit`), it is stored
+    under its regenerated name, and the recorded flag is the `is_bound` its `Layer.clone` returned -/
+theorem bind_one_regenerated_iff (h : BindInput G child ρ blk B)
+    (hr : bindOne G child om ρ blk B sel1 sel2 fuel = .ok acc) (n l : Obj) (bnd : Bool) :
+    acc.layers.lookup n = some (.cloned l bnd) ↔
+      n = ρ l ∧ Regen G om child l ∧ ∃ ds leaf, G.lookup l = some (ds, leaf) ∧ bnd = (blk.isSome && leaf) := by
+  obtain ⟨verb, acc1, I1, I2⟩ := bindOne_invs h.hyp hr
+  exact res_regen_iff h.hyp I1 I2 n l bnd
+
+/-- **(b) a layer is copied verbatim iff** it is an omitted layer that a regenerated layer depends on, or a transitive
+    dependency of one (`Verb`), and the blocker's graph does not already contain it. `hcons`: where the blocker's graph
+    and the child's graph share a layer name they agree on its dependencies (they are the same layer). -/
+theorem bind_one_verbatim_iff (h : BindInput G child ρ blk B)
+    (hcons : ∀ n ds0 ds leaf, (bindInit blk B).deps.lookup n = some ds0 → G.lookup n = some (ds, leaf) → ∀ d ∈ ds, d ∈ ds0)
+    (hr : bindOne G child om ρ blk B sel1 sel2 fuel = .ok acc) (n : Obj) :
+    acc.layers.lookup n = some .verbatim ↔ Verb G om child n ∧ (bindInit blk B).layers.lookup n = none := by
+  obtain ⟨verb, acc1, I1, I2⟩ := bindOne_invs h.hyp hr
+  exact res_verbatim_iff h.hyp I1 I2 hcons n
+
+/-- a verbatim layer keeps its dependencies -/
+theorem bind_one_verbatim_deps (h : BindInput G child ρ blk B)
+    (hr : bindOne G child om ρ blk B sel1 sel2 fuel = .ok acc) {n : Obj} (hv : acc.layers.lookup n = some .verbatim) :
+    ∃ ds leaf, G.lookup n = some (ds, leaf) ∧ acc.deps.lookup n = some ds := by
+  obtain ⟨verb, acc1, I1, I2⟩ := bindOne_invs h.hyp hr
+  exact (res_verbatim h.hyp I1 I2 hv).2.2
+
+/-- **(c) the new dependencies of a regenerated layer**: the regenerated names of its non-omitted dependencies, its
+    omitted dependencies under their own names, and the blocker's key when the layer was bound -/
+theorem bind_one_new_deps (h : BindInput G child ρ blk B)
+    (hr : bindOne G child om ρ blk B sel1 sel2 fuel = .ok acc) {l : Obj} {ds : List Obj} {leaf : Bool}
+    (hl : Regen G om child l) (hG : G.lookup l = some (ds, leaf)) :
+    ∃ nd, acc.deps.lookup (ρ l) = some nd ∧
+      ∀ x, x ∈ nd ↔ (∃ d ∈ ds, d ∉ om ∧ x = ρ d) ∨ (x ∈ ds ∧ x ∈ om) ∨ (leaf = true ∧ blk = some x) := by
+  obtain ⟨verb, acc1, I1, I2⟩ := bindOne_invs h.hyp hr
+  exact ⟨_, res_regen_deps h.hyp I1 I2 hl hG, fun x => mem_newDepOf⟩
+
+/-- … so **every bound layer depends on the checkpoint layer** -/
+theorem bind_one_bound_depends_on_blocker (h : BindInput G child ρ blk B)
+    (hr : bindOne G child om ρ blk B sel1 sel2 fuel = .ok acc) {n l b : Obj}
+    (hc : acc.layers.lookup n = some (.cloned l true)) (hb : blk = some b) :
+    ∃ nd, acc.deps.lookup n = some nd ∧ b ∈ nd ∧ (acc.layers.lookup b).isSome := by
+  obtain ⟨verb, acc1, I1, I2⟩ := bindOne_invs h.hyp hr
+  obtain ⟨rfl, hreg, ds, leaf, hG, hbl⟩ := (res_regen_iff h.hyp I1 I2 n l true).mp hc
+  have hleaf : leaf = true := by subst hb; simpa using hbl.symm
+  refine ⟨_, res_regen_deps h.hyp I1 I2 hreg hG, mem_newDepOf.mpr (Or.inr (Or.inr ⟨hleaf, hb⟩)), ?_⟩
+  have h0 := h.hyp.blkIn b hb
+  rw [(res_init I1 I2 b h0).1]; exact h0
+
+/-- **(d) regenerated names are fresh**: a layer of the result that carries a name of the child's graph is one of the
+    blocker's layers or an omitted (`Verb`) layer — no regenerated layer keeps an original name -/
+theorem bind_one_original_names (h : BindInput G child ρ blk B)
+    (hr : bindOne G child om ρ blk B sel1 sel2 fuel = .ok acc) {n : Obj} (hn : n ∈ acc.layers.map Prod.fst)
+    (hG : n ∈ G.map Prod.fst) : ((bindInit blk B).layers.lookup n).isSome ∨ Verb G om child n := by
+  obtain ⟨verb, acc1, I1, I2⟩ := bindOne_invs h.hyp hr
+  exact res_original_names h.hyp I1 I2 ((isSome_lookup_iff _ n).mpr hn) ((isSome_lookup_iff _ n).mpr hG)
+
+/-- the blocker's graph is part of the result, unchanged -/
+theorem bind_one_blocker_kept (h : BindInput G child ρ blk B)
+    (hr : bindOne G child om ρ blk B sel1 sel2 fuel = .ok acc) {n : Obj} (hn : ((bindInit blk B).layers.lookup n).isSome) :
+    acc.layers.lookup n = (bindInit blk B).layers.lookup n ∧ acc.deps.lookup n = (bindInit blk B).deps.lookup n := by
+  obtain ⟨verb, acc1, I1, I2⟩ := bindOne_invs h.hyp hr
+  exact res_init I1 I2 n hn
+
+/-- **the result does not depend on the order in which Python pops the two sets** (nor on the fuel) -/
+theorem bind_one_order_independent (h : BindInput G child ρ blk B)
+    (hcons : ∀ n ds0 ds leaf, (bindInit blk B).deps.lookup n = some ds0 → G.lookup n = some (ds, leaf) → ∀ d ∈ ds, d ∈ ds0)
+    {sel1' sel2' : List Obj → Nat} {fuel' : Nat} {acc' : BindAcc}
+    (hr : bindOne G child om ρ blk B sel1 sel2 fuel = .ok acc)
+    (hr' : bindOne G child om ρ blk B sel1' sel2' fuel' = .ok acc') (n : Obj) :
+    acc.layers.lookup n = acc'.layers.lookup n := by
+  obtain ⟨verb, acc1, I1, I2⟩ := bindOne_invs h.hyp hr
+  obtain ⟨verb', acc1', I1', I2'⟩ := bindOne_invs h.hyp hr'
+  cases ho : acc.layers.lookup n with
+  | some o => exact (res_layers_determined h.hyp hcons I1 I2 I1' I2' n o ho).symm
+  | none =>
+    cases ho' : acc'.layers.lookup n with
+    | none => rfl
+    | some o' => rw [res_layers_determined h.hyp hcons I1' I2' I1 I2 n o' ho'] at ho; cases ho
+
+end BindOne
+
+/-! non-vacuity: `z = f(y, w)`, `y = g(x)`, `w = h(x)`, `x = k(src)`; omit `x`; blocker `cp` over a parent `p` -/
+section BindExample
+def bxG : LayerMap :=
+  [(.str "z", ([.str "y", .str "w"], false)), (.str "y", ([.str "x"], true)), (.str "w", ([.str "x"], true)),
+   (.str "x", ([.str "src"], true)), (.str "src", ([], true))]
+def bxB : List (Obj × List Obj) := [(.str "cp", [.str "p"]), (.str "p", [])]
+
+example : BindInput bxG [.str "z"] exRho (some (.str "cp")) bxB :=
+  ⟨by decide, by decide, by decide, by decide, by decide, by decide, fun b h => by cases h; decide⟩
+example : ∀ n ds0 ds leaf, (bindInit (some (.str "cp")) bxB).deps.lookup n = some ds0 → bxG.lookup n = some (ds, leaf) →
+    ∀ d ∈ ds, d ∈ ds0 := by
+  intro n ds0 ds leaf h0 hG
+  have h1 : n ∈ [Obj.str "cp", .str "p"] := mem_keys_of_lookup _ n _ h0
+  have h2 : n ∈ [Obj.str "z", .str "y", .str "w", .str "x", .str "src"] := mem_keys_of_lookup _ n _ hG
+  simp only [List.mem_cons, List.not_mem_nil, or_false] at h1 h2
+  rcases h1 with rfl | rfl <;> simp at h2
+set_option maxRecDepth 8192 in
+/-- two bound layers (`y'`, `w'` depend on `cp`), a shared omitted layer `x` and its dependency `src` copied verbatim -/
+example : bindOne bxG [.str "z"] [.str "x"] exRho (some (.str "cp")) bxB (fun _ => 0) (fun w => w.length) (bindFuel bxG [.str "z"]) =
+    .ok ⟨[(.str "cp", .blocker), (.str "p", .blocker), (.str "z'", .cloned (.str "z") false),
+          (.str "y'", .cloned (.str "y") true), (.str "w'", .cloned (.str "w") true), (.str "x", .verbatim), (.str "src", .verbatim)],
+         [(.str "cp", [.str "p"]), (.str "p", []), (.str "z'", [.str "y'", .str "w'"]), (.str "y'", [.str "x", .str "cp"]),
+          (.str "w'", [.str "x", .str "cp"]), (.str "x", [.str "src"]), (.str "src", [])]⟩ := by rfl
+/-- the known finding at model level: a child that is itself omitted is regenerated all the same (`Regen.base`) -/
+example : Regen bxG [.str "z"] [.str "z"] (.str "z") := Regen.base (by simp)
+end BindExample
+
 /-! ### checkpoint: the aggregation tree reaches every input and computes `None` -/
 
 /-- `x` feeds (transitively) into `y` through the entries of the reduce layer -/
@@ -287,6 +453,60 @@ theorem checkpoint_none (env : Obj → Option Obj) (ins : List Node) (vs : List 
   simp [evalNode, h, evalKw, applyFunc]
 
 
+/-! #### the fuel of the aggregation loop and the shape of the tree
+
+`checkpointReduce` silently emits a flat final node when its fuel runs out; `checkpointReduce?` (same loop, `none` when the
+fuel runs out while `len(map_keys) > split_every`) makes that visible. `checkpoint` only calls the loop with
+`split_every = False` (0) or `split_every ≥ 2` (it raises `ValueError` below 2). -/
+
+/-- **the fuel the driver uses (`len + 1`) suffices** and then both versions agree, for every legal `split_every` -/
+theorem checkpoint_fuel_suffices (name : Obj) (mk : Nat → Obj) (se : Nat) (hse : se = 0 ∨ 2 ≤ se) (mapKeys : List Obj)
+    (fuel : Nat) (hf : mapKeys.length ≤ fuel) :
+    ∃ r, checkpointReduce? name mk se fuel mapKeys [] = some r ∧ checkpointReduce name mk se fuel mapKeys [] = r := by
+  have hs : (checkpointReduce? name mk se fuel mapKeys []).isSome := by
+    rcases hse with rfl | h2
+    · rw [checkpointReduce?_flat]; rfl
+    · exact checkpointReduce?_isSome name mk se h2 fuel mapKeys [] (by omega)
+  cases h : checkpointReduce? name mk se fuel mapKeys [] with
+  | none => rw [h] at hs; cases hs
+  | some r => exact ⟨r, rfl, checkpointReduce?_eq name mk se fuel mapKeys [] r h⟩
+
+/-- **the result does not depend on the fuel** once it is at least `len(map_keys)` -/
+theorem checkpoint_fuel_independent (name : Obj) (mk : Nat → Obj) (se : Nat) (hse : se = 0 ∨ 2 ≤ se) (mapKeys : List Obj)
+    (fuel fuel' : Nat) (hf : mapKeys.length ≤ fuel) (hf' : mapKeys.length ≤ fuel') :
+    checkpointReduce name mk se fuel mapKeys [] = checkpointReduce name mk se fuel' mapKeys [] := by
+  obtain ⟨r, h1, e1⟩ := checkpoint_fuel_suffices name mk se hse mapKeys fuel hf
+  obtain ⟨r', h1', e1'⟩ := checkpoint_fuel_suffices name mk se hse mapKeys fuel' hf'
+  rw [e1, e1']
+  rcases Nat.le_total fuel fuel' with hle | hle
+  · have := checkpointReduce?_mono_le name mk se hle mapKeys [] r h1
+    rw [h1'] at this; exact (Option.some.inj this).symm
+  · have := checkpointReduce?_mono_le name mk se hle mapKeys [] r' h1'
+    rw [h1] at this; exact Option.some.inj this
+
+/-- **shape**: every non-final entry of the reduce layer is `(name, i)` (`i` = its position) with exactly `split_every`
+    inputs, the final entry is `name` with at most `split_every` inputs (`split_every ≥ 2`) -/
+theorem checkpoint_shape (name : Obj) (mk : Nat → Obj) (se : Nat) (hse : 2 ≤ se) (mapKeys : List Obj) (fuel : Nat)
+    (hf : mapKeys.length ≤ fuel) :
+    ∃ mid last, checkpointReduce name mk se fuel mapKeys [] = mid ++ [(name, last)] ∧
+      (∀ e ∈ mid, e.2.length = se) ∧ last.length ≤ se ∧ (∀ i (h : i < mid.length), (mid[i]).1 = mk i) := by
+  obtain ⟨r, h1, e1⟩ := checkpoint_fuel_suffices name mk se (Or.inr hse) mapKeys fuel hf
+  obtain ⟨mid, last, e, hm, hl, hk⟩ := checkpointReduce?_shape name mk se fuel mapKeys [] r h1
+  exact ⟨mid, last, by rw [e1, e]; simp, hm, hl (by omega), fun i h => by simpa using hk i h⟩
+
+/-- why `checkpoint` has to reject `split_every = 1`: the loop would not terminate (no fuel is enough) -/
+theorem checkpoint_split_every_one_diverges (name : Obj) (mk : Nat → Obj) (mapKeys : List Obj) (h : 1 < mapKeys.length)
+    (fuel : Nat) : checkpointReduce? name mk 1 fuel mapKeys [] = none :=
+  checkpointReduce?_se1_diverges name mk fuel mapKeys [] h
+
+example : checkpointReduce? (.str "cp") (fun i => .tuple [.str "cp", .int i]) 2 3 [.int 1, .int 2, .int 3, .int 4, .int 5] [] =
+    some [(.tuple [.str "cp", .int 0], [.int 1, .int 2]), (.tuple [.str "cp", .int 1], [.int 3, .int 4]),
+     (.tuple [.str "cp", .int 2], [.int 5, .tuple [.str "cp", .int 0]]),
+     (.str "cp", [.tuple [.str "cp", .int 1], .tuple [.str "cp", .int 2]])] := by decide
+/-- with too little fuel the explicit version says so (the silent one returns a flat, wrong layer) -/
+example : checkpointReduce? (.str "cp") (fun i => .tuple [.str "cp", .int i]) 2 1 [.int 1, .int 2, .int 3, .int 4, .int 5] [] = none := by
+  decide
+
 /-! ### which regenerated Blockwise layers are bound -/
 
 /-- **A regenerated layer all of whose inputs are omitted is a leaf** — whatever kind the inputs are (array names or
@@ -321,6 +541,46 @@ theorem blockwiseLeaf_false_of_ref (names : List Obj) (indices : List BwArg) (nu
     (`bind_values`) -/
 example : blockwiseLeaf [.str "y"] [.name (.str "x"), .ref (.str "d")] [.str "x"] = true := by decide
 example : blockwiseLeaf [.str "y", .str "d"] [.name (.str "x"), .ref (.str "d")] [.str "x"] = false := by decide
+
+/-! ### `Blockwise.clone`: the whole rewrite (blockwise.py 746-820)
+
+`blockwiseClone` renames exactly the `indices` entries (names with an index / TaskRef keys) and `numblocks` keys that
+are in `names`, renames the output and the task key, and — iff the layer is a leaf and a blocker is given — appends
+`(TaskRef(bind_to), None)` and wraps the task in `chunks.bind(task, <that argument>)`. -/
+
+/-- `bound` ⇔ a blocker was given and the layer is a leaf; the wrapper reads the appended argument -/
+theorem blockwise_clone_bound_iff (names : List Obj) (ρ : Obj → Obj) (bindTo : Option Obj) (L : BwLayer) :
+    ((blockwiseClone names ρ bindTo L).2 = true ↔ bindTo.isSome = true ∧ blockwiseLeaf names L.indices L.numblocks = true) ∧
+    (blockwiseClone names ρ bindTo L).1.wrapped = (if (blockwiseClone names ρ bindTo L).2 then some L.indices.length else none) ∧
+    (blockwiseClone names ρ bindTo L).1.output = ρ L.output := by
+  refine ⟨by rw [blockwiseClone_bound]; simp, blockwiseClone_wrapped names ρ bindTo L, (blockwiseClone_output names ρ bindTo L).1⟩
+
+/-- **the rewritten layer refers to the regenerated name of an input iff that input is regenerated**, and keeps the
+    original name iff it is not -/
+theorem blockwise_clone_refers_regenerated_iff (names : List Obj) (ρ : Obj → Obj) (bindTo : Option Obj) (L : BwLayer) {k : Obj}
+    (hk : k ∈ argRefs L.indices)
+    (hfresh : ∀ a ∈ argRefs L.indices, ρ a ∉ argRefs L.indices ∧ bindTo ≠ some (ρ a) ∧ bindTo ≠ some a)
+    (hinj : ∀ a ∈ argRefs L.indices, ∀ b ∈ argRefs L.indices, ρ a = ρ b → a = b) :
+    (ρ k ∈ argRefs (blockwiseClone names ρ bindTo L).1.indices ↔ k ∈ names) ∧
+    (k ∈ argRefs (blockwiseClone names ρ bindTo L).1.indices ↔ k ∉ names) :=
+  blockwiseClone_refers_regenerated_iff names ρ bindTo L hk hfresh hinj
+
+/-- **consistency with `_bind_one`**: when the inputs in `names` are exactly the non-omitted ones, the names the rewritten
+    layer refers to are exactly the dependency set `_bind_one` records for the regenerated layer (`bind_one_new_deps`) -/
+theorem blockwise_clone_refs_eq_new_deps (names om : List Obj) (ρ : Obj → Obj) (bindTo : Option Obj) (L : BwLayer)
+    (hn : ∀ d ∈ argRefs L.indices, d ∈ names ↔ d ∉ om) (x : Obj) :
+    x ∈ argRefs (blockwiseClone names ρ bindTo L).1.indices ↔
+      x ∈ newDepOf ρ om bindTo (argRefs L.indices) (blockwiseLeaf names L.indices L.numblocks) :=
+  blockwiseClone_refs_eq_newDep names om ρ bindTo L hn x
+
+/-- `y = f(x, d)` with `x` regenerated, the Delayed `d` omitted: only `x` is renamed; with both omitted the layer is bound -/
+example : blockwiseClone [.str "x", .str "y"] exRho (some (.str "cp")) ⟨.str "y", [.name (.str "x"), .ref (.str "d"), .other], [.str "x"], .str "y"⟩ =
+    (⟨.str "y'", [.name (.str "x'"), .ref (.str "d"), .other], [.str "x'"], .str "y'", none⟩, false) := by rfl
+example : blockwiseClone [.str "y"] exRho (some (.str "cp")) ⟨.str "y", [.name (.str "x"), .ref (.str "d"), .other], [.str "x"], .str "y"⟩ =
+    (⟨.str "y'", [.name (.str "x"), .ref (.str "d"), .other, .ref (.str "cp")], [.str "x"], .str "y'", some 3⟩, true) := by rfl
+example : ∀ a ∈ argRefs [BwArg.name (.str "x"), .ref (.str "d"), .other],
+    exRho a ∉ argRefs [BwArg.name (.str "x"), .ref (.str "d"), .other] ∧ some (Obj.str "cp") ≠ some (exRho a) ∧ some (Obj.str "cp") ≠ some a := by
+  decide
 
 /-! non-vacuity -/
 example : checkpointReduce (.str "cp") (fun i => .tuple [.str "cp", .int i]) 2 10
